@@ -234,7 +234,7 @@ func checkWrite(c *writeCase) (string, bool) {
 func TestP2WriteFaults(t *testing.T) {
 	rec := ev.New("C13", "writefaults")
 	defer rec.Finish(t)
-	rec.Rule("for each generated font (x 4 formats and WritePDF; a quarter of them with one charstring of 600-1800 bytes, i.e. a single write spanning several internal buffers) and metrics value (Metrics.Write): a write fault at EVERY write-call index 0..calls and at EVERY byte offset 0..bytes (short write + error), each as a persistent fault (all later calls fail too) and as a transient one (later calls succeed), counted on a fault-free dry run first; one font per shard is padded (glyph name lengthened by 0-511 characters) until its output contains a Write call without data, if the writer makes such calls at all - that call is a fault point too. Oracle: a delivered fault makes the writer return a non-nil error, without panic. Non-trivial: fault delivered; distinct by (value, form, point).")
+	rec.Rule("for each generated font (x 4 formats and WritePDF; a quarter of them with one charstring of 600-1800 bytes, i.e. a single write spanning several internal buffers) and metrics value (Metrics.Write): a write fault at EVERY write-call index 0..calls and at EVERY byte offset 0..bytes (short write + error), each as a persistent fault (all later calls fail too) and as a transient one (later calls succeed), counted on a fault-free dry run first; one font per shard is padded (glyph name lengthened by 0-511 characters) until its output contains a Write call without data, if the writer makes such calls at all - that call is a fault point too; one more font per shard is written with a glyph name lengthened by 0..77 characters in turn (every length class of the encrypted portion modulo a hex line), a fault at every write-call index each time. Oracle: a delivered fault makes the writer return a non-nil error, without panic. Non-trivial: fault delivered; distinct by (value, form, point).")
 	ev.SetupRapid(48, 1200)
 	caseNo := 0
 	shard, _ := ev.Shard()
@@ -257,6 +257,9 @@ func TestP2WriteFaults(t *testing.T) {
 			base.Form = rapid.IntRange(1, 5).Draw(t, "form")
 			if forced {
 				base.Form = []int{1, 3, 5}[shard%3]
+			}
+			if caseNo == 4 {
+				base.Form = []int{1, 5, 3}[shard%3]
 			}
 			if padded {
 				base.Form = []int{5, 3, 1}[shard%3]
@@ -327,6 +330,38 @@ func TestP2WriteFaults(t *testing.T) {
 		}
 		if rec.WantSample() {
 			rec.Sample(map[string]any{"form": base.Form, "write_calls": cw.Calls, "bytes": cw.Bytes})
+		}
+		// the fourth case of every shard, in every length class: the same
+		// font with a glyph name lengthened by 0..77 characters (the encrypted
+		// portion takes every length modulo the 39 bytes of a hex line, twice,
+		// and many lengths modulo the block size), a fault at every write-call
+		// index - whatever must line up with a buffer boundary does so for one
+		// of the lengths
+		if caseNo == 4 && base.Font != nil {
+			g := &type1.Glyph{WidthX: 500}
+			g.MoveTo(1, 2)
+			g.LineTo(30, 40)
+			g.ClosePath()
+			rec.Class("every-length-class")
+			for k := 0; k < 78; k++ {
+				name := "len" + strings.Repeat("y", k)
+				base.Font.Glyphs[name] = g
+				var cw2 iofault.CountWriter
+				if doWrite(&base, nil, &cw2) == nil {
+					for _, once := range []bool{false, true} {
+						for at := 0; at <= cw2.Calls; at++ {
+							c := base
+							c.AtCall, c.AtByte, c.Once = at, -1, once
+							o := uint64(k+1) << 44
+							if once {
+								o |= 1 << 40
+							}
+							try(c, o+uint64(at)*2)
+						}
+					}
+				}
+				delete(base.Font.Glyphs, name)
+			}
 		}
 	})
 }
